@@ -52,7 +52,12 @@ claim("C12",
       "Static, all paths (thorough: all build configurations): length-prefixed stream reads (2-octet big-endian length, io.ReadFull of exactly that many from the same connection, over-long lengths refused), raw reads only on the packet edge, framed stream writes (fresh buffer 2+len, prefix, copy, refusal above 65535), nil error from an exchange only with reply ID == query ID and the skip loop only on packet connections, no use of the receive buffer after it went back to the pool, a fresh unshared response writer per request. The decoded request not aliasing the receive buffer is decided under C16.R2. All interleavings, short reads/writes and early EOF are not decided: schedules / fault sequences.",
       STATIC_NOTE, "SSA edge-dominance with edge facts on phi-merged returns; byte-access provenance; use-after-release reachability")
 
+claim("C16",
+      "Proof by a sound may-alias / may-write analysis over the SSA form of the whole module (summary-based, interprocedural, global fixed point, all paths, all inputs): every copy implementation (81 RR + 16 EDNS0 + 10 SVCB + helpers + Msg.Copy/CopyTo) returns memory disjoint from its source; every unpacker (81 RR + 16 EDNS0 + 10 SVCB + Msg.Unpack, UnpackRR, ...) stores into its result nothing that is memory of the input buffer; every read-only operation (Pack, PackBuffer, PackRR, Len, 107 String methods, IsDuplicate and 81 isDuplicate methods, Copy, RRSIG.Sign/Verify, SIG.Verify, ...) writes nothing reachable from its read-only arguments except RDLENGTH / the OPT's extended-RCODE bits. obligations == discharged is required.",
+      "Trusted base: go/ssa's translation; the standard-library behaviour table (checker/e2.go extBehaviourOf; unlisted callees are treated as aliasing and writing everything); strings and function values are immutable; user-supplied PrivateRdata/TsigProvider/crypto.Signer/Handler implementations are outside the module; reflection only in the read-only accessors Field/NumField (asserted).",
+      "interprocedural may-alias / may-write abstract interpretation (roots x contents x summaries), proof obligations per function", cat="proof")
+
 _pending = "rules for this property are designed (DESIGN.md §4) but not implemented yet; not claimed until they run"
-for p in ["C02","C03","C05","C06","C07","C16"]:
+for p in ["C02","C03","C05","C06","C07"]:
     na(p, _pending)
 na("C19", "every clause is an equality between index arithmetic on a runtime string and its label sequence; no pairing/ownership/ordering/table structure to decide statically (DESIGN.md §8)")
